@@ -91,6 +91,7 @@ type checkOpts struct {
 	only                    string
 	mutantTag               string
 	showNotes               bool
+	noReplay                bool
 }
 
 type CheckOutcome struct {
@@ -121,6 +122,7 @@ func cmdCheck(args []string) int {
 	fs.IntVar(&o.workers, "workers", 8, "")
 	fs.StringVar(&o.only, "only", "", "only obligations whose name contains this")
 	fs.BoolVar(&o.showNotes, "notes", false, "print imprecision notes")
+	fs.BoolVar(&o.noReplay, "noreplay", false, "do not replay counterexamples against the real code")
 	fs.Parse(args)
 	if s := os.Getenv("VERIF_SEED"); s != "" && o.seed == 0 {
 		o.seed, _ = strconv.Atoi(s)
@@ -150,8 +152,13 @@ func cmdLock(args []string) int {
 		}
 		var names []string
 		for _, r := range out.Results {
-			if r.OK && r.Variant == "" {
-				names = append(names, r.O.Name)
+			// only obligations with stable, contract-derived names are locked (panic/overflow obligations are numbered
+			// by instruction order, which a harmless reordering changes)
+			switch r.O.Kind {
+			case "ensures", "inv-entry", "inv-pres", "decreases", "lemma", "assert", "call-pre", "frame":
+				if r.OK && r.Variant == "" {
+					names = append(names, r.O.Name)
+				}
 			}
 		}
 		sort.Strings(names)
